@@ -2423,6 +2423,28 @@ def rule_P12(ctx, reader, obj, rid='P12'):
                 rid, key, reader.qualname, sorted(lens) or 'no length'))
             continue
         lname = next(iter(lens))
+        # the count is the length of a record of the SAME object (one that the writer stores
+        # element for element next to this list) -- not of a record that belongs to a member
+        # object, whose length is a different quantity that merely often coincides
+        try:
+            lexpr = ast.parse(lname, mode='eval').body
+        except SyntaxError:
+            lexpr = None
+        depth = 0
+        e_ = lexpr
+        while isinstance(e_, (ast.Attribute, ast.Subscript)):
+            if isinstance(e_, ast.Attribute):
+                depth += 1
+            e_ = e_.value
+        if isinstance(e_, ast.Name) and e_.id == obj and depth >= 2:
+            n += 1
+            ctx.ob(rid, '%s:count-from-own-record(%s)' % (reader.qualname, key), False,
+                   ranges[0][1].where,
+                   'the number of %r elements to restore is taken from `len(%s)`, a record of a '
+                   'member object: the writer stores one element per entry of its own list, '
+                   'whose length is a different quantity (e.g. neural bounds follow the '
+                   'non-overlapping split, the outer union is split further)' % (key, lname))
+            continue
         ok, cex = True, None
         lo = max(literal) + 1 if literal else 0
         for N in range(lo, 7):
